@@ -111,6 +111,13 @@ impl Engine for Msim {
                 strategy: gen::sweep2_case(&ctx.prop, thorough),
             });
         }
+        if ctx.prop == "C07" {
+            stages.push(Stage {
+                name: "resize-overlap".into(),
+                cases: if thorough { 16 * 20000 } else { 16 * 1500 },
+                strategy: gen::resize_overlap_case(),
+            });
+        }
         if matches!(ctx.prop.as_str(), "C01" | "C02" | "C08" | "C09" | "C11") {
             stages.push(Stage {
                 name: "contention".into(),
